@@ -35,9 +35,7 @@ def expected(kind, pos, d, uh, filt):
         return "nothing"
     if uh == "NEIGHBOR":
         return "OE" if F else "nothing"
-    if F:
-        return "NotImplementedError"
-    return {"NotImplementedError", "nothing"}
+    return "NotImplementedError"   # unknown_handling decides whether the link takes part at all; the filter only restricts links that do
 
 
 def consts(h):
